@@ -1,11 +1,12 @@
 """C19 (extension): the receiving / slave side of the serial peripherals and the remaining sequencers.
-RS232PHYRX  - per-bit contract on an arbitrary line (start detection, mid-bit sampling instants as exact accumulator arithmetic,
-              LSB-first assembly, stop-bit check, one-cycle valid, return to idle, termination) and a link-level contract against a
-              ghost *ideal transmitter* (symbolic byte, symbolic sub-cycle phase, symbolic idle gaps / back-to-back frames, symbolic
-              tuning words with +-2% rate mismatch): every frame is delivered exactly once with the transmitted byte.
+RS232PHYRX  - per-bit contract on an arbitrary line (start detection, mid-bit sampling instants as exact accumulator arithmetic, LSB-first assembly,
+              stop-bit check, one-cycle valid, return to idle, termination) and link-level contracts against a ghost *ideal transmitter* (symbolic byte,
+              symbolic idle gaps / back-to-back frames): (a) symbolic 32-bit tuning word and symbolic sub-cycle phase at the programmed rate,
+              (b) concrete bit periods with a symbolic integer transmitter period (rate mismatch up to +-3.1%): every frame is delivered exactly once
+              with the transmitted byte and the receiver is idle again before the stop bit ends.
 SPISlave    - chip-select framing, bit count, MSB-first capture on the rising edge, MISO shifting on the falling edge, done/irq.
-I2CMasterMachine / I2CMaster - only legal START/STOP/bit sequences on scl/sda, every command returns to idle.
-timeline    - events exactly at the listed offsets after the trigger, returns to idle."""
+I2CMaster   - (litex/soc/cores/i2c.py, at the pads) only legal START/STOP/bit sequences on scl/sda, every command returns to idle; two findings.
+timeline    - events exactly at the listed offsets after the accepted trigger, returns to idle."""
 import z3
 from vf.elab import L, locals_of, mk
 from vf.hw import *
@@ -92,12 +93,13 @@ def c_uart_rx():
     h.functions = ["litex.soc.cores.uart.RS232PHYRX.__init__", "litex.soc.cores.uart.RS232ClkPhaseAccum.__init__"]
     return h
 
-def c_uart_rx_link(tmin=10, ppm50=True):
-    """the line is driven by a ghost ideal transmitter (start, 8 data bits LSB first, stop; one bit per 2^32/twt cycles, arbitrary
-    sub-cycle phase, arbitrary idle gaps including none); receiver programmed with twr, |twt - twr| <= 2% of twr, bit period >= tmin cycles"""
+def c_uart_rx_link_sym(tmin=12):
+    """link-level contract for a SYMBOLIC 32-bit tuning word (bit period 2^32/tw >= tmin cycles, not necessarily an integer): the line is driven by
+    a ghost ideal transmitter running at the programmed rate with an arbitrary sub-cycle phase (symbolic initial phase < tw at every start bit),
+    symbolic byte, symbolic idle gaps including none.  Every frame is delivered exactly once with the transmitted byte."""
     d, pads = _rx_top([("go", 1), ("byte", 8), ("ph", 32)]); rx = d.rx; src = rx.source
     go, byte, ph = d.aux
-    h = HwCheck(f"RS232PHYRX.link(T>={tmin})", d, [d.tw, pads.rx, go, byte, ph])
+    h = HwCheck(f"RS232PHYRX.link(tw symbolic,T>={tmin})", d, [d.tw, pads.rx, go, byte, ph])
     V = h.v
     r0, r1, rxs, rx_d, count, data, phase, tick = _rx_regs(h, rx)
     st, enc = rx.fsm.state, rx.fsm.encoding
@@ -105,20 +107,16 @@ def c_uart_rx_link(tmin=10, ppm50=True):
     W = 40
     def S(x): return zx(x, W)
     def C(x): return z3.BitVecVal(x, W)
-    twr = h.const("twr", 32); twt = h.const("twt", 32); R = S(twr); T = S(twt)
+    tw = h.const("tw", 32); T = S(tw)
     BIT = 1 << 32
-    h.assume(V(d.tw) == twr, "the receiver's tuning word is configuration: constant (rigid symbolic 32-bit value)")
-    h.assume(z3.And(z3.UGE(twr, K(1, 32)), z3.ULE(twr, K(BIT // tmin, 32))), f"programmed bit period 2^32/tuning_word is at least {tmin} system clock cycles")
-    tol = h.const("tol", 32); TOL = S(tol)
-    h.assume(z3.And((T - R) + TOL >= C(0), (R - T) + TOL >= C(0), R - 50 * TOL >= C(0), z3.ULE(twt, K(BIT // 8, 32)), z3.ULE(tol, K(BIT // 64, 32))),
-             "the transmitter's bit rate is within +-2% of the programmed one: |twt - twr| <= tol with 50 * tol <= twr, i.e. |twt - twr| <= floor(twr / 50) (rigid symbolic tuning word of the ideal transmitter)")
-    # ---- ghost ideal transmitter
+    h.assume(V(d.tw) == tw, "the tuning word is configuration: constant (rigid symbolic 32-bit value), the same for the ideal transmitter")
+    h.assume(z3.And(z3.UGE(tw, K(1, 32)), z3.ULE(tw, K(BIT // tmin, 32))), f"programmed bit period 2^32/tuning_word is at least {tmin} system clock cycles")
     t_act = h.ghost("t_act", 1); t_acc = h.ghost("t_acc", W); t_byte = h.ghost("t_byte", 8); boot = h.ghost("boot", 2); dlv = h.ghost("delivered", 1)
     act = b(t_act); full = boot == K(3, 2)
-    end_ = z3.Or(z3.Not(act), t_acc + T >= C(10 * BIT))           # signed compare on 48 bits: all quantities stay far below 2^47
+    end_ = z3.Or(z3.Not(act), t_acc + T >= C(10 * BIT))           # signed compare on 40 bits: all quantities stay far below 2^39
     start = z3.And(end_, b(V(go)))
     h.assume(z3.Implies(z3.Not(full), z3.Not(b(V(go)))), "the line is idle during the first three cycles after reset (the synchroniser resets to 0, the idle level is 1)")
-    h.assume(z3.ULT(V(ph), twt), "phase of the transmitter's bit clock relative to the system clock at the start bit: any value in [0, one cycle)")
+    h.assume(z3.ULT(V(ph), tw), "phase of the transmitter's bit clock relative to the system clock at the start bit: any value in [0, one cycle)")
     h.ghost_next(boot, z3.If(full, boot, boot + 1))
     h.ghost_next(t_act, z3.If(end_, V(go), K(1, 1)))
     ideal_acc = z3.If(start, S(V(ph)), z3.If(end_, C(0), t_acc + T))     # transition function of the ideal transmitter's phase
@@ -127,13 +125,19 @@ def c_uart_rx_link(tmin=10, ppm50=True):
     h.ghost_next(dlv, z3.If(start, K(0, 1), z3.If(valid, K(1, 1), dlv)))
     frame = z3.Concat(K(1, 1), t_byte, K(0, 1))                   # bit 0 = start, 1..8 = data LSB first, 9 = stop
     def fbit(idx4): return z3.Extract(0, 0, z3.LShR(frame, zx(idx4, 10)))
-    def line_at(x):                                               # line level at extended phase x of the current frame (idle/stop level before it)
-        return z3.If(x < C(0), K(1, 1), fbit(z3.Extract(35, 32, x)))
+    def line_at(x): return z3.If(x < C(0), K(1, 1), fbit(z3.Extract(35, 32, x)))
     line = z3.If(act, line_at(t_acc), K(1, 1))
     h.assume(V(pads.rx) == line, "the rx pad carries the waveform of the ideal transmitter")
-    # ---- hints (from the code): synchroniser content, receiver position relative to the transmitter
     one = K(1, 1); zero = K(0, 1)
     def pipe(a, b_, c): return z3.And(V(r0) == a, V(r1) == b_, V(rx_d) == c)
+    # While the receiver is in RUN the transmitter's phase is carried as t_acc == X + E (X = its phase when the receiver entered RUN, constant; E = elapsed
+    # receiver phase) and the ghost's next phase is written as X + (E + T) (bit-blasting cannot re-associate sums); `ens.ghost-is-ideal-tx` certifies that
+    # in every reachable state this equals the ideal transition function, so the ghost IS the ideal transmitter.
+    E = h.ghost("E", W); X = h.ghost("X", W)
+    h.ghost_next(E, z3.If(run, E + T, C(0)))
+    h.ghost_next(X, z3.If(run, X, ideal_acc))
+    h.ghost_next(t_acc, z3.If(run, X + (E + T), ideal_acc))
+    e = S(z3.Concat(V(count) + zx(V(tick), 4), V(phase))) - C(BIT // 2)
     h.hint("st", ult(V(st), 2))
     h.hint("boot0", z3.Implies(boot == K(0, 2), z3.And(pipe(zero, zero, zero), idle, z3.Not(act), dlv == zero)))
     h.hint("boot1", z3.Implies(boot == K(1, 2), z3.And(pipe(one, zero, zero), idle, z3.Not(act), dlv == zero)))
@@ -143,47 +147,326 @@ def c_uart_rx_link(tmin=10, ppm50=True):
     h.hint("pipe", z3.Implies(z3.And(full, act), pipe(line_at(t_acc - T), line_at(t_acc - 2 * T), line_at(t_acc - 3 * T))))
     h.hint("pre", z3.Implies(z3.And(act, dlv == zero, idle), t_acc < 3 * T))
     h.hint("pre2", z3.Implies(z3.And(act, t_acc < 3 * T), z3.And(idle, dlv == zero)))
-    e = S(z3.Concat(V(count) + zx(V(tick), 4), V(phase))) - C(BIT // 2)      # phase elapsed in the receiver since it entered RUN (real registers)
-    # ghost copies that keep the drift argument additive: E = elapsed receiver phase, X = t_acc - E - 3*T = phase of the transmitter at the
-    # detection (in [0, T)) plus the accumulated drift; per cycle X moves by the rigid amount T - R, |50 * (T - R)| <= R
-    # While the receiver is in RUN the transmitter's phase is carried as t_acc == X + E + 3*T, with E = elapsed receiver phase (+R per cycle) and
-    # X = transmitter phase at the detection (in [0, T)) plus the accumulated drift (+(T-R) per cycle); G = (cycles in RUN) * tol bounds the drift.
-    # In RUN the ghost's next phase is written in this regrouped form (bit-blasting cannot re-associate sums); `ens.ghost-is-ideal-tx` below
-    # certifies that in every reachable state it equals the ideal transition function (t_acc + T), so the ghost IS the ideal transmitter.
-    E = h.ghost("E", W); X = h.ghost("X", W); G = h.ghost("G", W)
-    GMAX = int(0.1911 * BIT)
-    h.ghost_next(E, z3.If(run, E + R, C(0)))
-    h.ghost_next(X, z3.If(run, X + (T - R), t_acc - 2 * T))
-    h.ghost_next(G, z3.If(run, G + TOL, C(0)))
-    h.ghost_next(t_acc, z3.If(run, ((X + (T - R)) + (E + R)) + 3 * T, ideal_acc))
     h.hint("run", z3.Implies(run, z3.And(act, full, dlv == zero, ule(V(count), 9))))
-    h.hint("E", z3.Implies(run, z3.And(E == e, E >= C(0), E < C(19 * BIT // 2) + R)))
-    h.hint("X.link", z3.Implies(run, t_acc == (X + E) + 3 * T))
-    h.hint("lo", z3.Implies(run, X + G >= C(0)))
-    h.hint("hi", z3.Implies(run, (G - X) + (T - 1) >= C(0)))
-    h.hint("E-50G", z3.Implies(run, E - 50 * G >= C(0)))
-    h.hint("G.range", z3.Implies(run, z3.And(G >= C(0), G <= C(GMAX))))
-    h.hint("X.range", z3.Implies(run, z3.And(X > C(-BIT), X < C(BIT))))
+    h.hint("E", z3.Implies(run, z3.And(E == e, E >= C(0), E < C(19 * BIT // 2) + T)))
+    h.hint("X.link", z3.Implies(run, t_acc == X + E))
+    h.hint("X.window", z3.Implies(run, z3.And(X >= 3 * T, X < 4 * T)))
     h.hint("notend", z3.Implies(run, t_acc + T < C(10 * BIT)))
-    h.hint("tickphase", z3.Implies(z3.And(run, b(V(tick))), z3.ULT(V(phase), twr)))
+    h.hint("tickphase", z3.Implies(z3.And(run, b(V(tick))), z3.ULT(V(phase), tw)))
     h.hint("post", z3.Implies(z3.And(act, dlv == one), z3.And(idle, t_acc >= C(9 * BIT) + 3 * T)))
+    for n in range(2, 10):
+        h.hint(f"asm{n}", z3.Implies(z3.And(run, eqc(V(count), n)), z3.Extract(7, 9 - n, V(data)) == z3.Extract(n - 2, 0, t_byte)))
+    sample = z3.And(run, b(V(tick)))
+    h.ensure("ens.ghost-is-ideal-tx", z3.Implies(run, h.primed(t_acc) == ideal_acc))                  # (in the other states the two are the same expression)
+    h.ensure("ens.sample-in-bit", z3.Implies(sample, V(rxs) == fbit(V(count))))
+    h.ensure("ens.recover", z3.Implies(valid, z3.And(act, V(src.data) == t_byte, dlv == zero)))
+    h.ensure("ens.all-delivered", z3.Implies(z3.And(act, end_), dlv == one))
+    h.ensure("ens.idle-at-end", z3.Implies(z3.And(act, end_), z3.And(idle, V(rxs) == one, V(rx_d) == one)))
+    h.ensure("ens.quiet", z3.Implies(z3.And(full, z3.Not(act)), z3.And(idle, z3.Not(valid))))
+    seen = h.ghost("seen", 1); early = h.ghost("early", 1)
+    h.ghost_next(seen, z3.If(full, one, seen)); h.ghost_next(early, z3.If(z3.And(full, seen == zero), bv1(z3.And(b(V(go)), V(byte) == K(0xA5, 8), V(ph) == K(12345, 32))), early))
+    h.cover("cover.sample", z3.And(sample, eqc(V(count), 1), early == one, tw == K(BIT // tmin, 32)), depth=2 * tmin + 10)
+    h.bmc_depth = 2 * tmin + 10
+    h.functions = ["litex.soc.cores.uart.RS232PHYRX.__init__", "litex.soc.cores.uart.RS232ClkPhaseAccum.__init__"]
+    return h
+
+# NOTE (not a case): the same contract with a symbolic transmitter tuning word within +-2% (X' = X + (twt - twr) in RUN, drift bounded by a ghost
+# G = cycles * tol with 50 * tol <= twr, hints (X + G) - 3T >= 0, (G - X) + 4T - 1 >= 0, E - 50 * G >= 0) has every hint inductive when the step query is
+# split by the FSM state (each < 5 s), but the joint Houdini step query (no unit literal for the state, guarded 40-bit sums under multiplexers) is not
+# decided by z3 in 300 s.  The +-2% (+-3.1%) mismatch is therefore covered at concrete bit periods by c_uart_rx_link_int below.
+
+def c_uart_rx_link_int(k=5, dmax=1, deep=True):
+    """link-level contract at a concrete programmed bit period of T = 2^k system clock cycles (tuning word 2^(32-k)): the line is driven by a
+    ghost ideal transmitter whose bit period is a rigid symbolic integer number of cycles p in [T - dmax, T + dmax] (rate mismatch of
+    +-dmax/T >= +-2%), symbolic byte, symbolic idle gaps including none (back-to-back frames); every frame is delivered exactly once with
+    the transmitted byte, each sample is taken inside the corresponding bit, the receiver is idle again before the stop bit ends."""
+    Tc = 1 << k
+    d, pads = _rx_top([("go", 1), ("byte", 8)]); rx = d.rx; src = rx.source
+    go, byte = d.aux
+    h = HwCheck(f"RS232PHYRX.link(T={Tc},+-{dmax})", d, [d.tw, pads.rx, go, byte])
+    V = h.v
+    r0, r1, rxs, rx_d, count, data, phase, tick = _rx_regs(h, rx)
+    st, enc = rx.fsm.state, rx.fsm.encoding
+    idle = eqc(V(st), enc["IDLE"]); run = eqc(V(st), enc["RUN"])
+    one, zero = K(1, 1), K(0, 1)
+    h.assume(V(d.tw) == K(1 << (32 - k), 32), f"the receiver is programmed for a bit period of {Tc} system clock cycles (tuning word 2^{32 - k})")
+    PW = k + 2; NW = k + 6                                     # widths: cycles within a bit, cycles within a frame
+    p = h.const("period", PW)
+    h.assume(z3.And(z3.UGE(p, K(Tc - dmax, PW)), z3.ULE(p, K(Tc + dmax, PW))), f"the ideal transmitter's bit period is a constant number of cycles within +-{dmax} of {Tc} (+-{100.0 * dmax / Tc:.1f}% rate mismatch)")
+    # ---- ghost ideal transmitter: bit index, cycle within the bit, cycles since the start of the frame
+    t_act = h.ghost("t_act", 1); t_bit = h.ghost("t_bit", 4); t_cyc = h.ghost("t_cyc", PW); t_n = h.ghost("t_n", NW); t_byte = h.ghost("t_byte", 8)
+    boot = h.ghost("boot", 2); dlv = h.ghost("delivered", 1)
+    act = b(t_act); full = boot == K(3, 2)
+    lastcyc = t_cyc == p - 1
+    end_ = z3.Or(z3.Not(act), z3.And(lastcyc, t_bit == K(9, 4)))
+    start = z3.And(end_, b(V(go)))
+    h.assume(z3.Implies(z3.Not(full), z3.Not(b(V(go)))), "the line is idle during the first three cycles after reset (the synchroniser resets to 0, the idle level is 1)")
+    h.ghost_next(boot, z3.If(full, boot, boot + 1))
+    h.ghost_next(t_act, z3.If(end_, V(go), one))
+    h.ghost_next(t_bit, z3.If(end_, K(0, 4), z3.If(lastcyc, t_bit + 1, t_bit)))
+    h.ghost_next(t_cyc, z3.If(z3.Or(end_, lastcyc), K(0, PW), t_cyc + 1))
+    h.ghost_next(t_n, z3.If(end_, K(0, NW), t_n + 1))
+    h.ghost_next(t_byte, z3.If(start, V(byte), t_byte))
+    valid = b(V(src.valid))
+    h.ghost_next(dlv, z3.If(start, zero, z3.If(valid, one, dlv)))
+    frame = z3.Concat(one, t_byte, zero)                          # bit 0 = start, 1..8 = data LSB first, 9 = stop
+    def fbit(idx4): return z3.Extract(0, 0, z3.LShR(frame, zx(idx4, 10)))
+    line = z3.If(act, fbit(t_bit), one)
+    h.assume(V(pads.rx) == line, "the rx pad carries the waveform of the ideal transmitter")
+    # ---- hints
+    P = zx(p, NW)
+    def line_ago(j):                                              # line level j cycles ago (j <= 3 < bit period): same bit or the previous one; idle/stop level before the frame
+        same = z3.UGE(t_cyc, K(j, PW))
+        return z3.If(same, fbit(t_bit), z3.If(t_bit == K(0, 4), one, fbit(t_bit - 1)))
+    def pipe(a, b_, c): return z3.And(V(r0) == a, V(r1) == b_, V(rx_d) == c)
+    h.hint("st", ult(V(st), 2))
+    h.hint("boot0", z3.Implies(boot == K(0, 2), z3.And(pipe(zero, zero, zero), idle, z3.Not(act), dlv == zero)))
+    h.hint("boot1", z3.Implies(boot == K(1, 2), z3.And(pipe(one, zero, zero), idle, z3.Not(act), dlv == zero)))
+    h.hint("boot2", z3.Implies(boot == K(2, 2), z3.And(pipe(one, one, zero), idle, z3.Not(act), dlv == zero)))
+    h.hint("t.range", z3.If(act, z3.And(z3.ULT(t_cyc, p), ule(t_bit, 9)), z3.And(t_cyc == K(0, PW), t_bit == K(0, 4), t_n == K(0, NW))))
+    h.hint("t.n", t_n == zx(t_bit, NW) * P + zx(t_cyc, NW))
+    h.hint("quiet", z3.Implies(z3.And(full, z3.Not(act)), z3.And(idle, pipe(one, one, one))))
+    h.hint("pipe", z3.Implies(z3.And(full, act), pipe(line_ago(1), line_ago(2), line_ago(3))))
+    h.hint("pre", z3.Implies(z3.And(act, dlv == zero, idle), ult(t_n, 3)))
+    h.hint("pre2", z3.Implies(z3.And(act, ult(t_n, 3)), z3.And(idle, dlv == zero)))
+    # receiver position in cycles since it entered RUN: (count + tick) * T + phase / 2^(32-k) - T/2; the transmitter is three cycles ahead
+    ptop = z3.Extract(31, 32 - k, V(phase))
+    n_rx = zx(z3.Concat(V(count) + zx(V(tick), 4), ptop), NW) - K(Tc // 2, NW)
+    h.hint("run", z3.Implies(run, z3.And(act, full, dlv == zero, ule(V(count), 9), z3.Extract(31 - k, 0, V(phase)) == K(0, 32 - k))))
+    h.hint("link", z3.Implies(run, t_n == n_rx + 3))
+    h.hint("tickphase", z3.Implies(z3.And(run, b(V(tick))), ptop == K(0, k)))
+    h.hint("post", z3.Implies(z3.And(act, dlv == one), z3.And(idle, t_bit == K(9, 4), uge(t_cyc, 3))))
     for n in range(2, 10):
         h.hint(f"asm{n}", z3.Implies(z3.And(run, eqc(V(count), n)), z3.Extract(7, 9 - n, V(data)) == z3.Extract(n - 2, 0, t_byte)))
     # ---- postconditions (from the property)
     sample = z3.And(run, b(V(tick)))
-    h.ensure("ens.ghost-is-ideal-tx", z3.Implies(run, h.primed(t_acc) == ideal_acc))                # (in the other states the two are the same expression)
-    h.ensure("ens.sample-in-bit", z3.Implies(sample, V(rxs) == fbit(V(count))))                      # the k-th sample is taken inside bit k of the frame
+    h.ensure("ens.sample-in-bit", z3.Implies(sample, z3.And(V(rxs) == fbit(V(count)), line_ago(2) == fbit(V(count)))))   # the k-th sample is the level of bit k of the frame
     h.ensure("ens.recover", z3.Implies(valid, z3.And(act, V(src.data) == t_byte, dlv == zero)))         # the byte delivered is the byte transmitted, once
     h.ensure("ens.all-delivered", z3.Implies(z3.And(act, end_), dlv == one))                           # every frame is delivered before its stop bit ends
     h.ensure("ens.idle-at-end", z3.Implies(z3.And(act, end_), z3.And(idle, V(rxs) == one, V(rx_d) == one)))  # ready for a start bit that follows immediately
     h.ensure("ens.quiet", z3.Implies(z3.And(full, z3.Not(act)), z3.And(idle, z3.Not(valid))))          # idle line: no byte
-    h.cover("cover.deliver", z3.And(valid, V(src.data) == K(0xA5, 8)), depth=10 * tmin + 8)
-    h.bmc_depth = 10 * tmin + 8
+    h.cover("cover.sample", z3.And(sample, eqc(V(count), 2), V(rxs) == one), depth=3 * Tc + 8)
+    # cover of a complete frame: pinned to the schedule "0xA5 sent in the first possible cycle" so that the deep reachability search is propagation only
+    seen = h.ghost("seen", 1); early = h.ghost("early", 1)
+    h.ghost_next(seen, z3.If(full, one, seen)); h.ghost_next(early, z3.If(z3.And(full, seen == zero), bv1(z3.And(b(V(go)), V(byte) == K(0xA5, 8))), early))
+    if deep:
+        h.cover("cover.deliver", z3.And(valid, V(src.data) == K(0xA5, 8), early == one, p == K(Tc, PW)), depth=10 * (Tc + dmax) + 8)
+        h.cover("cover.back-to-back", z3.And(act, ult(t_n, 1), dlv == zero, early == one, p == K(Tc, PW), t_byte == K(0x3C, 8)), depth=10 * (Tc + dmax) + 8)   # second frame starts right after the stop bit
+        h.bmc_time = 900
+    if k >= 6: h.bmc_time = 900                                  # thorough tier only: the cover at depth ~3 bit periods needs more than the default 60 s
+    h.bmc_depth = 3 * Tc
     h.functions = ["litex.soc.cores.uart.RS232PHYRX.__init__", "litex.soc.cores.uart.RS232ClkPhaseAccum.__init__"]
     return h
 
+# ------------------------------------------------------------------------------------------------ SPISlave
+def c_spi_slave(dw=8):
+    """4-wire SPI slave, mode 0.  Stated at the pads (every pad is seen two cycles later through its synchroniser): chip-select framing
+    (start / irq pulses, done), `length` = number of clock pulses in the frame, MOSI captured on the rising edge MSB first (stated by
+    arrival order), MISO presents the word loaded at `start` MSB first and advances on the falling edge only, loopback."""
+    from litex.soc.cores.spi.spi_slave import SPISlave
+    d = mk(SPISlave, None, dw); p = d.pads
+    h = HwCheck(f"SPISlave({dw})", d, [p.clk, p.cs_n, p.mosi, d.miso, d.loopback])
+    V = h.v
+    st, enc = d.fsm.state, d.fsm.encoding
+    idle = eqc(V(st), enc["IDLE"]); xfer = eqc(V(st), enc["XFER"])
+    one, zero = K(1, 1), K(0, 1)
+    # the pads as the core sees them: two synchroniser stages (reset 0 = clock low, not selected)
+    c1 = h.prev("clk1", V(p.clk)); c2 = h.prev("clk2", c1); c3 = h.prev("clk3", c2)
+    s1 = h.prev("sel1", ~V(p.cs_n)); s2 = h.prev("sel2", s1); s3 = h.prev("sel3", s2)
+    m1 = h.prev("mosi1", V(p.mosi)); m2 = h.prev("mosi2", m1)
+    sync = sorted([s for s in h.ts.state if s not in h.ts.orig_signals and s.nbits == 1], key=lambda s: s.duid)
+    assert len(sync) == 6
+    for reg, g, n in zip(sync, (c1, c2, s1, s2, m1, m2), ("clk1", "clk2", "sel1", "sel2", "mosi1", "mosi2")): h.hint("sync." + n, V(reg) == g)
+    clk_d, miso_data = L(d, "clk_d"), L(d, "miso_data")
+    h.hint("sync.clk3", V(clk_d) == c3)
+    h.hint("state", V(st) == s3)                          # XFER exactly one cycle behind the (synchronised) chip select
+    sel = b(s2); rise = z3.And(b(c2), z3.Not(b(c3))); fall = z3.And(z3.Not(b(c2)), b(c3))
+    # partner: a mode-0 master keeps SCK low while CS is high and still in the first system-clock cycle in which CS is low
+    pcs = h.prev("csn", V(p.cs_n), init=1)
+    h.assume(z3.Implies(z3.Or(b(V(p.cs_n)), b(pcs)), V(p.clk) == zero), "SPI mode 0 master: SCK is low while CS_n is high and in the first system clock cycle of CS_n low (chip-select setup of at least one cycle)")
+    h.hint("a.clk1", z3.Implies(z3.Or(s1 == zero, s2 == zero), c1 == zero)); h.hint("a.clk2", z3.Implies(z3.Or(s2 == zero, s3 == zero), c2 == zero))
+    h.hint("a.pcs", pcs == ~s1)
+    s4 = h.prev("sel4", s3); h.hint("a.clk3", z3.Implies(z3.Or(s3 == zero, s4 == zero), c3 == zero))
+    # ---- chip-select framing
+    h.ensure("ens.start", b(V(d.start)) == z3.And(sel, z3.Not(b(s3))))          # one pulse in the first cycle of the frame
+    h.ensure("ens.irq", b(V(d.irq)) == z3.And(z3.Not(sel), b(s3)))              # one pulse in the first cycle after the frame
+    h.ensure("ens.done", b(V(d.done)) == z3.And(z3.Not(sel), z3.Not(b(s3))))    # inactive
+    h.ensure("ens.idle", eqc(h.n(st), enc["XFER"]) == sel)                      # in XFER while selected, back to IDLE when deselected: never stuck
+    # ---- number of clock pulses of the frame
+    LW = len(d.length)
+    nr = h.ghost("nrise", LW); h.ghost_next(nr, z3.If(sel, z3.If(rise, nr + 1, nr), K(0, LW)))
+    h.hint("len", z3.Implies(xfer, V(d.length) == nr))
+    h.hint("nr0", z3.Implies(z3.Not(b(s3)), nr == K(0, LW)))
+    h.ensure("ens.length", z3.Implies(xfer, V(d.length) == nr))                 # in particular in the irq cycle: the pulses of the whole frame (mod 2^8)
+    # ---- MOSI capture on the rising edge, MSB first: the k-th bit of the frame (k = 0 first) is bit n-1-k of `mosi` after n <= dw bits
+    rec = [h.ghost(f"rec{k}", 1) for k in range(dw)]
+    for k in range(dw): h.ghost_next(rec[k], z3.If(z3.And(sel, rise, nr == K(k, LW)), m2, rec[k]))
+    M = V(d.mosi)
+    def captured(n): return z3.And(*[z3.Extract(n - 1 - k, n - 1 - k, M) == rec[k] for k in range(n)])
+    for n in range(1, dw + 1):
+        h.hint(f"cap{n}", z3.Implies(z3.And(b(s3), nr == K(n, LW)), captured(n)))
+        h.ensure(f"ens.capture{n}", z3.Implies(z3.And(b(V(d.irq)), nr == K(n, LW)), captured(n)))
+    h.ensure("ens.capture-edge", z3.Implies(z3.Not(z3.And(sel, rise)), h.n(d.mosi) == M))       # the captured word only changes on a rising edge inside the frame
+    # ---- MISO: the word offered at `start`, MSB first, advanced by falling edges inside the frame
+    gm = h.ghost("gmiso", dw); nf = h.ghost("nfall", LW)
+    startp = z3.And(sel, z3.Not(b(s3)))
+    h.ghost_next(gm, z3.If(startp, V(d.miso), gm))
+    h.ghost_next(nf, z3.If(startp, K(0, LW), z3.If(z3.And(sel, fall, ult(nf, dw)), nf + 1, nf)))  # saturates at dw (all bits shifted out)
+    def shifted(word, k): return word if k == 0 else (z3.Concat(z3.Extract(dw - 1 - k, 0, word), K(0, k)) if k < dw else K(0, dw))
+    for k in range(dw + 1):
+        h.hint(f"miso{k}", z3.Implies(z3.And(b(s3), nf == K(k, LW)), V(miso_data) == shifted(gm, k)))
+    h.hint("nf", ule(nf, dw))
+    for k in range(dw):
+        h.ensure(f"ens.miso{k}", z3.Implies(z3.And(xfer, V(d.loopback) == zero, nf == K(k, LW)), V(p.miso) == z3.Extract(dw - 1 - k, dw - 1 - k, gm)))
+    h.ensure("ens.miso-edge", z3.Implies(z3.And(z3.Not(startp), z3.Not(z3.And(sel, fall))), h.n(miso_data) == V(miso_data)))   # MISO is stable between falling edges
+    h.ensure("ens.loopback", z3.Implies(V(d.loopback) == one, V(p.miso) == m2))
+    h.cover("cover.byte", z3.And(b(V(d.irq)), nr == K(dw, LW), M == K(0xA5 & ((1 << dw) - 1), dw)), depth=3 * dw + 10)
+    h.cover("cover.miso", z3.And(xfer, nf == K(dw - 1, LW), V(p.miso) == one, V(d.loopback) == zero), depth=3 * dw + 10)
+    h.cover("cover.short", z3.And(b(V(d.irq)), nr == K(1, LW)), depth=12)
+    h.bmc_depth = 3 * dw + 10
+    h.functions = ["litex.soc.cores.spi.spi_slave.SPISlave.__init__"]
+    return h
+
+# ------------------------------------------------------------------------------------------------ I2CMaster (litex/soc/cores/i2c.py)
+def _i2c_top():
+    from migen.fhdl.specials import Tristate
+    from litex.soc.cores.i2c import I2CMaster
+    class Pads:
+        def __init__(self): self.scl = Signal(); self.sda = Signal()
+    d = mk(I2CMaster, Pads())
+    f = d.get_fragment()
+    # the two Tristate buffers are technology primitives (no simulation model): removed, the pad inputs scl_t.i / sda_t.i become environment inputs
+    f.specials = {s for s in f.specials if not isinstance(s, Tristate)}
+    return d, f
+
+def _c_i2c_common(mode="disciplined"):
+    disciplined = mode == "disciplined"
+    """Wishbone-programmed I2C master at its pads (open drain: line = not oe).  Legal waveform: SCL and SDA never change in the same cycle; SDA changes
+    while SCL is high only as the START / STOP condition of a start / stop command; every command returns to idle (ranking function).
+    disciplined=True: software programs the divider (>= 1) before the first command and issues a command only when the core reports idle."""
+    d, f = _i2c_top(); bus = d.bus; m = d.i2c
+    h = HwCheck(f"I2CMaster({mode})", f, [bus.adr, bus.dat_w, bus.we, bus.cyc, bus.stb, bus.sel, d.scl_t.i, d.sda_t.i])
+    V = h.v
+    st, enc = m.fsm.state, m.fsm.encoding
+    S = {n: eqc(V(st), c) for n, c in enc.items()}
+    one, zero = K(1, 1), K(0, 1)
+    bits = L(m, "bits"); cnt = [s for s in h.ts.state if s.nbits == 20 and s is not m.cg.load][0]
+    h.assume(V(d.scl_t.i) == ~V(d.scl_t.oe), "no clock stretching and no second master: the SCL line is what this master drives (open drain with pull-up)")
+    scl = V(m.scl_o); scl_n = h.n(m.scl_o)                          # SCL line = not scl_t.oe = scl_o
+    sda = ~V(d.sda_t.oe); sda_n = ~h.n(d.sda_t.oe)                  # SDA as driven by the master
+    wr = z3.And(b(V(bus.cyc)), b(V(bus.stb)), z3.Not(b(V(bus.ack))), b(V(bus.we)))
+    wr_xfer = z3.And(wr, z3.Extract(0, 0, V(bus.adr)) == zero); wr_cfg = z3.And(wr, z3.Extract(0, 0, V(bus.adr)) == one)
+    cmdbits = z3.Extract(12, 9, V(bus.dat_w))
+    run = b(V(L(m, "run")))
+    # software discipline (mode "disciplined": all of it; "overlap": commands at any time; "div0": the divider is not required to be programmed)
+    p_cmd = h.ghost("cmd_recent", 1); cfg = h.ghost("configured", 1)
+    is_cmd = z3.And(wr_xfer, cmdbits != K(0, 4))
+    h.ghost_next(p_cmd, bv1(is_cmd)); h.ghost_next(cfg, z3.If(wr_cfg, one, cfg))
+    quiet = z3.And(b(V(m.idle)), p_cmd == zero)
+    if mode in ("disciplined", "div0"):
+        h.assume(z3.Implies(wr_xfer, quiet), "software writes the xfer register (command, data and ack fields) only when the core reports idle, and not in the cycle right after a command write")
+    if mode in ("disciplined", "overlap"):
+        h.assume(z3.Implies(wr_cfg, z3.And(z3.UGE(z3.Extract(19, 0, V(bus.dat_w)), K(1, 20)), quiet)), "the divider is programmed with a value >= 1, only while idle")
+        h.assume(z3.Implies(is_cmd, cfg == one), "the divider is programmed before the first command (its reset value 0 is not a usable setting)")
+        h.hint("cfg", z3.Implies(cfg == one, z3.UGE(V(m.cg.load), K(1, 20))))
+    else:
+        h.assume(z3.Implies(wr_cfg, quiet), "the divider is only written while idle")
+    strobes = z3.Concat(V(m.start), V(m.stop), V(m.write), V(m.read))
+    ce = b(V(m.fsm.ce)); busy = z3.Not(S["IDLE"]); B = V(bits); CNT = V(cnt); LOAD = V(m.cg.load)
+    # ---- legal waveform
+    h.ensure("ens.no-simultaneous-edge", z3.Not(z3.And(scl != scl_n, sda != sda_n)))               # SDA never moves in the cycle of an SCL edge
+    legal = z3.Implies(z3.And(sda != sda_n, scl == one, scl_n == one), z3.And(ce, z3.Or(z3.And(S["START0"], sda_n == zero), z3.And(S["STOP2"], sda_n == one))))
+    settled = z3.Implies(z3.And(scl == zero, scl_n == one), sda == V(m.sda_o))                        # at every rising SCL edge the SDA pad carries the level the sequencer intends (data / ack bit)
+    if mode == "disciplined":
+        h.ensure("ens.start-stop-only-on-command", legal)                                           # SDA moves while SCL is high only as the START / STOP of a start / stop command
+        h.ensure("ens.sda-settled-at-rising-scl", settled)
+    elif mode == "overlap":
+        h.finding("finding.i2c-overlapping-command", z3.And(legal, settled), "a write to the xfer register while a transfer is in flight forces an FSM step (fsm.ce = run | clk2x) and rewrites the shift register: an SCL phase of a single cycle, the SDA update deferred by the pad logic lands while SCL is high = START/STOP condition inside a byte, and the byte on the wire is corrupted (tools/replay_i2c_overlap.py scenario B)")
+    else:
+        h.finding("finding.i2c-divider-reset-value", settled, "with the divider register at its reset value 0 the sequencer steps every cycle, the 'SCL stable' gate of the SDA pad never opens and SDA does not follow the data: 0xA5 goes out as 0x00 although every command was issued while idle (tools/replay_i2c_overlap.py scenario A)")
+    # ---- every command returns to idle: lexicographic ranking (FSM steps still to go, cycles to the next divider tick)
+    RW = 6
+    def rk(stx, bx):
+        bz = zx(bx, RW)
+        table = {"IDLE": K(0, RW), "START0": K(1, RW), "RESTART0": K(3, RW), "RESTART1": K(2, RW), "STOP0": K(3, RW), "STOP1": K(2, RW), "STOP2": K(1, RW),
+                 "WRITE0": z3.If(bz == K(0, RW), K(3, RW), 2 * bz + 3), "WRITE1": 2 * bz + 2, "READACK0": K(2, RW), "READACK1": K(1, RW),
+                 "READ0": K(18, RW), "READ1": z3.If(bz == K(0, RW), K(3, RW), 2 * bz + 3), "READ2": 2 * bz + 2, "WRITEACK0": K(2, RW), "WRITEACK1": K(1, RW)}
+        r = K(0, RW)
+        for n, c in enc.items(): r = z3.If(eqc(stx, c), table[n], r)
+        return r
+    r0 = rk(V(st), B); r1 = rk(h.n(st), h.n(bits))
+    h.hint("bits<=8", ule(B, 8)); h.hint("bits>=1", z3.Implies(z3.Or(S["WRITE1"], S["READ2"]), uge(B, 1))); h.hint("bits.read", z3.And(z3.Implies(z3.Or(S["READ1"], S["READ2"]), ule(B, 7)), z3.Implies(S["READ0"], B == K(7, 4))))
+    h.ensure("ens.rank", z3.Implies(busy, z3.Or(z3.ULT(r1, r0), z3.And(r1 == r0, z3.ULT(h.n(cnt), CNT)))))
+    h.ensure("ens.idle-flag", b(V(m.idle)) == z3.And(S["IDLE"], strobes == K(0, 4)))
+    h.cover("cover.start", z3.And(S["START0"], ce, sda_n == zero, sda == one), depth=10)             # a START condition is emitted
+    h.cover("cover.write-bit", z3.And(S["WRITE1"], ce, B == K(7, 4)), depth=16)
+    if mode == "div0": h.cover("cover.write-acked", z3.And(S["READACK1"], ce), depth=24)            # (needs 20 FSM steps: cheap only with the divider at 0)
+    h.bmc_depth = 24
+    if disciplined:
+        gate_closed = V(d.scl_i_n) != V(m.scl_o)
+        h.hint("strobes=cmd", (strobes != K(0, 4)) == (p_cmd == one))
+        h.hint("strobes->idle", z3.Implies(strobes != K(0, 4), S["IDLE"]))
+        h.hint("cmd->cfg", z3.Implies(p_cmd == one, cfg == one)); h.hint("busy->cfg", z3.Implies(busy, cfg == one))
+        h.hint("gate->cnt", z3.Implies(gate_closed, z3.And(CNT == LOAD, strobes == K(0, 4))))
+        lv = {"START0": (1, None), "RESTART0": (0, None), "RESTART1": (0, 1), "STOP0": (0, None), "STOP1": (0, 0), "STOP2": (1, 0), "WRITE1": (0, None), "READACK0": (0, 1),
+              "READACK1": (1, 1), "READ1": (1, None), "READ2": (0, None), "WRITEACK0": (0, None), "WRITEACK1": (1, None)}
+        for n, (c_, a_) in lv.items():
+            h.hint("lv." + n, z3.Implies(S[n], z3.And(V(m.scl_o) == K(c_, 1), z3.BoolVal(True) if a_ is None else V(m.sda_o) == K(a_, 1))))
+    h.functions = ["litex.soc.cores.i2c.I2CMaster.__init__", "litex.soc.cores.i2c.I2CMasterMachine.__init__", "litex.soc.cores.i2c.I2CClockGen.__init__"]
+    return h, d, m, S, dict()
+
+def c_i2c(mode="disciplined"):
+    h, d, m, S, x = _c_i2c_common(mode)
+    return h
+
+# ------------------------------------------------------------------------------------------------ timeline (litex/gen/genlib/misc.py)
+def c_timeline(offsets=(0, 2, 5)):
+    """a trigger is accepted when no accepted trigger is younger than `last` cycles; the event listed at offset e is executed exactly e cycles after
+    the accepted trigger (here: sets a flag register that is otherwise cleared, so the flag is visible one cycle later) and at no other time"""
+    from litex.gen.genlib.misc import timeline
+    offsets = tuple(offsets); last = max(offsets)
+    class Top(LiteXModule):
+        def __init__(self):
+            self.trigger = Signal()
+            self.flags = [Signal(name=f"flag{e}") for e in offsets]
+            self.sync += [fl.eq(0) for fl in self.flags]
+            self.sync += timeline(self.trigger, [(e, [fl.eq(1)]) for e, fl in zip(offsets, self.flags)])
+    d = mk(Top)
+    h = HwCheck(f"timeline{list(offsets)}", d, [d.trigger])
+    V = h.v; one, zero = K(1, 1), K(0, 1)
+    counter = [s for s in h.ts.state if s not in d.flags][0]
+    # specification state: hist[k] = a trigger was accepted k cycles ago (k = 1..last)
+    hist = [None] + [h.ghost(f"acc{k}", 1) for k in range(1, last + 1)]
+    busy = z3.Or(*[hist[k] == one for k in range(1, last + 1)]) if last else z3.BoolVal(False)
+    acc = z3.And(b(V(d.trigger)), z3.Not(busy))
+    for k in range(1, last + 1): h.ghost_next(hist[k], bv1(acc) if k == 1 else hist[k - 1])
+    for k in range(1, last + 1): h.hint(f"pos{k}", (hist[k] == one) == eqc(V(counter), k))
+    h.hint("cnt<=last", ule(V(counter), last))
+    for e, fl in zip(offsets, d.flags):
+        fire = acc if e == 0 else hist[e] == one
+        h.ensure(f"ens.event@{e}", b(h.n(fl)) == fire)                      # executed exactly e cycles after the accepted trigger, never otherwise
+    h.ensure("ens.idle", eqc(V(counter), 0) == z3.Not(busy))               # idle again exactly `last` cycles after the accepted trigger
+    h.cover("cover.last", b(V(d.flags[offsets.index(last)])), depth=last + 4)
+    h.functions = ["litex.gen.genlib.misc.timeline"]
+    return h
+
 def cases(tier):
-    cs = [Case("RS232PHYRX", c_uart_rx)]
+    cs = [Case("RS232PHYRX", c_uart_rx),
+          Case("RS232PHYRX.link(tw symbolic,T>=12)", c_uart_rx_link_sym, 12),
+          Case("RS232PHYRX.link(T=16,+-0)", c_uart_rx_link_int, 4, 0, True),
+          Case("RS232PHYRX.link(T=32,+-1)", c_uart_rx_link_int, 5, 1, False),
+          Case("SPISlave(8)", c_spi_slave, 8), Case("SPISlave(5)", c_spi_slave, 5),
+          Case("I2CMaster(disciplined)", c_i2c, "disciplined"), Case("I2CMaster(overlap)", c_i2c, "overlap"), Case("I2CMaster(div0)", c_i2c, "div0"),
+          Case("timeline[0,2,5]", c_timeline, (0, 2, 5)), Case("timeline[1,3]", c_timeline, (1, 3)), Case("timeline[2,7]", c_timeline, (2, 7))]
+    if tier == "thorough":
+        cs += [Case("RS232PHYRX.link(T=32,+-1,deep)", c_uart_rx_link_int, 5, 1, True), Case("RS232PHYRX.link(T=64,+-2)", c_uart_rx_link_int, 6, 2, False),
+               Case("SPISlave(16)", c_spi_slave, 16), Case("SPISlave(32)", c_spi_slave, 32)]
     return cs
 
-ASSUMPTIONS = []
+ASSUMPTIONS = [
+    "RS232PHYRX (per-bit case): no assumption on the line or the tuning word; the k-th sample instant is stated as exact accumulator arithmetic (floor((2^31 + sum of tuning words) / 2^32)), termination needs tuning word != 0",
+    "RS232PHYRX (link cases): the rx pad carries the waveform of a ghost ideal transmitter (start, 8 data bits LSB first, stop; symbolic byte, symbolic idle gaps including back-to-back frames; line idle during the first three cycles after reset). (a) 'tw symbolic': rigid symbolic 32-bit tuning word with bit period >= 12 cycles, transmitter at exactly the programmed rate with a symbolic sub-cycle phase at every start bit; in RUN the ghost's phase is carried in a regrouped form and `ens.ghost-is-ideal-tx` certifies that it equals the ideal transition function. (b) concrete programmed bit periods of 16 / 32 (/ 64) cycles with a transmitter bit period that is a rigid symbolic INTEGER number of cycles within +-0 / +-1 (/ +-2), i.e. +-3.1% at T=32. NOT covered: rate mismatch together with a symbolic tuning word (see the note above c_uart_rx_link_int), bit periods below 12 cycles, glitch rejection on the start bit (the receiver does not re-check the start bit at mid-bit; outside C19)",
+    "SPISlave: mode-0 master keeps SCK low while CS_n is high and in the first system clock cycle of CS_n low (chip-select setup >= 1 cycle); all pads are seen through their two-stage synchronisers; `length` is stated modulo 2^8; capture claim for frames of 1..data_width bits",
+    "I2CMaster: Tristate primitives removed from the fragment, SCL pad input = the level this master drives (no clock stretching, single master); mode 'disciplined': xfer register written only while idle, divider programmed >= 1 before the first command and only while idle; 'overlap' / 'div0' drop one of these and carry the findings. Not covered: data/ack bit VALUES against the written byte, litex/soc/cores/bitbang.py (software bit-banging: no hardware sequencing)",
+    "timeline: checked through a harness that sets a flag register per listed offset; a timeline whose only offset is 0 cannot be elaborated (Signal(max=1) assertion) and is not a case",
+]
